@@ -13,7 +13,8 @@ from vlib import miri
 
 MODULE = "TriompheModel.Props.C02"
 
-QUICK = ["clone_read_drop_2t", "thin_offset_union_2t", "try_unwrap_vs_drop", "nodrop_payload_2t", "arcswap_cell_last_owner"]
+# unwrap_or_clone_vs_make_mut: the release inside the copy-on-write path may be the LAST one (the other owners left meanwhile)
+QUICK = ["clone_read_drop_2t", "thin_offset_union_2t", "try_unwrap_vs_drop", "nodrop_payload_2t", "arcswap_cell_last_owner", "unwrap_or_clone_vs_make_mut"]
 ASSUME = [
     "M4 Consistent: the RC11/C++20 fragment for one location whose writes are all RMWs (coherence, release sequences in index form)",
     "M4 Protocol / ViaBorn: DERIVED (WM/Ownership.lean: protocol_of_run, viaBorn_of_run) for every run of an operational, ownership-guarded semantics of handle programs (clone / access / load / drop / hand-over between threads) and every transitive hb containing program order and the hand-over edges; that this semantics is what safe Rust allows a client to do with handles is the remaining assumption (not derived from rustc)",
@@ -40,7 +41,7 @@ def run(ctx):
     ctx.oblige("model-search:no-racy-template-execution", nw == 0, wtxt[:300])
 
     # supporting validation + failing-input search: Miri litmus programs on the working tree
-    progs = QUICK if not ctx.thorough() else (miri.programs_for("C02") + ["try_unwrap_vs_drop", "racing_try_unwrap_2t", "unwrap_or_clone_vs_drop", "try_unique_vs_drop"])
+    progs = QUICK if not ctx.thorough() else (miri.programs_for("C02") + ["try_unwrap_vs_drop", "racing_try_unwrap_2t", "unwrap_or_clone_vs_drop", "try_unique_vs_drop", "unwrap_or_clone_vs_make_mut", "make_mut_vs_readers"])
     seeds = miri.seeds(ctx, 2 if not ctx.thorough() else 24)
     res = miri.run_suite(ctx, progs, seeds)
     ctx.coverage.update(miri.coverage(res))
